@@ -165,6 +165,11 @@ def check(case, ctx) -> Res:
         k = len(answers)
         culprit = lines[k] if k < len(lines) else "?"
         sig = "session died: " + sr.run.crash_sig()
+        # :skip / :replace edit the evaluator's stacks by design (see their :help text); a later step that finds
+        # the value stack empty is one recorded root cause, recognised by the panic text AND such a command earlier
+        earlier = [q[1] for q in reqs[:k + 1] if q[0] == "run" and isinstance(q[1], str)]
+        if "value stack" in sr.run.err and any(c == ":skip" or c.startswith(":replace") for c in earlier):
+            sig = "session died: empty value stack after :skip/:replace"
         return fail(sig, f"the session process died (exit {sr.run.rc}) while handling request #{k}: {culprit}\n"
                          f"{sr.run.err[-700:]}\n--- history\n{hist}", classes=cls)
     if sr.leftover.strip():
